@@ -246,7 +246,9 @@ def cross_groups(tier, seed):
             keys = set(d.split("=")[0] for d in alt.get("defs", []))
             defs = [d for d in g.get("defs", ()) if d.split("=")[0] not in keys] + list(alt.get("defs", []))
             ng = dict(g); ng.update({"key": "%s:%s @ %s" % (pid, g["key"], name), "calls": calls, "defs": defs,
-                                     "std": alt.get("std", g.get("std", "c++14")), "opt": alt.get("opt", g.get("opt", "-O2")),
+                                     # the language level is only ever raised: features the library guards with FASTOR_CXX_VERSION >= 2017
+                                     # (explicit-output einsum) are legitimately absent under C++14
+                                     "std": max(alt.get("std", "c++14"), g.get("std", "c++14")), "opt": alt.get("opt", g.get("opt", "-O2")),
                                      "home": {"std": g.get("std", "c++14"), "opt": g.get("opt", "-O1"), "defs": list(g.get("defs", ()))}, "pid": pid, "alt": name})
             out.append(ng)
     return out, skipped
